@@ -595,7 +595,7 @@ func checkOne(c oneCase) evid.Outcome {
 	v := judge(&c.world, &c.Req, status, ans, false)
 	class, nt := flowClass(&c.world, &c.Req)
 	if v.viol != "" {
-		return evid.Outcome{Violation: v.viol, Known: v.known, Class: class}
+		return evid.Outcome{Violation: v.viol, Known: v.known, Class: class + "/" + v.result + "/violation" + v.known}
 	}
 	return evid.Outcome{NonTrivial: nt, Class: class + "/" + v.result}
 }
